@@ -360,13 +360,22 @@ fn child_nofile(args: &[String]) -> i32 {
     let base = (deleted_mappings(), open_fds());
     // a working buffer first (everything the harness needs is set up)
     let probe = Buffer::<u32>::new(4096).is_ok();
+    // second argument "fsize:<bytes>": the backing file cannot be made as large as the buffer
+    // (file size limit, SIGXFSZ ignored: sizing it fails with EFBIG); default: no descriptor
+    let fsize: Option<u64> = args.get(1).and_then(|a| a.strip_prefix("fsize:")).and_then(|v| v.parse().ok());
+    let res = if fsize.is_some() { libc::RLIMIT_FSIZE } else { libc::RLIMIT_NOFILE };
     let mut old = libc::rlimit { rlim_cur: 0, rlim_max: 0 };
-    unsafe { libc::getrlimit(libc::RLIMIT_NOFILE, &mut old) };
-    // all descriptors in use: the next open() fails with EMFILE
-    let rl = libc::rlimit { rlim_cur: 0, rlim_max: old.rlim_max };
-    unsafe { libc::setrlimit(libc::RLIMIT_NOFILE, &rl) };
+    unsafe { libc::getrlimit(res, &mut old) };
+    // nofile: all descriptors in use, the next open() fails with EMFILE
+    let rl = libc::rlimit { rlim_cur: fsize.unwrap_or(0), rlim_max: old.rlim_max };
+    unsafe {
+        if fsize.is_some() {
+            libc::signal(libc::SIGXFSZ, libc::SIG_IGN);
+        }
+        libc::setrlimit(res, &rl);
+    }
     let r = Buffer::<u32>::new(size);
-    unsafe { libc::setrlimit(libc::RLIMIT_NOFILE, &old) };
+    unsafe { libc::setrlimit(res, &old) };
     let (ok, data_ok) = match r {
         Err(_) => (false, true),
         Ok(b) => {
